@@ -8,6 +8,7 @@ mutate.py run   <outdir> [--per-file K] [--seed S] [--par P] [--jobs J] [--only 
                                                     that file (quick tier, stop at the first that reports a violation);
                                                     for mutants nobody reports, run the repository's own suite as well.
                                                     One JSON line per mutant in <outdir>/results.jsonl (resumable).
+mutate.py extend <outdir> [--par P] [--jobs J]       second pass: survivors of the mapped checks are run against all other checks
 mutate.py table <outdir>                            summary by file and by operator, list of survivors
 
 Mutation operators: comparison boundary (< <=, > >=), comparison negation (== !=, is / is not, in / not in),
@@ -170,7 +171,15 @@ def sample(per_file, seed, only=None):
     return res
 
 
-def run_one(m, jobs, seed):
+def _with_ids(rel):
+    ms = mutants_of(rel)
+    for i, m in enumerate(ms):
+        m["id"] = f"{rel.replace('/', '.')[:-3]}#{i}"
+        m["n_sites"] = len(ms)
+    return ms
+
+
+def run_one(m, jobs, seed, checks=None, suite=True):
     d = f"/tmp/mut/{m['id'].replace('#', '_')}"
     shutil.rmtree(d, ignore_errors=True)
     os.makedirs(d)
@@ -181,7 +190,7 @@ def run_one(m, jobs, seed):
     rec["verdict"] = "survived"
     t0 = time.time()
     try:
-        for c in CHECKS[m["file"]]:
+        for c in (checks if checks is not None else CHECKS[m["file"]]):
             env = dict(os.environ, VERIF_REPO=d, VERIF_SEED=str(seed), VERIF_JOBS=str(jobs), VERIF_TASK_TIMEOUT="400", PYTHONDONTWRITEBYTECODE="1")
             try:
                 p = subprocess.run(["/venv/bin/python", "-B", "run_check.py", c, "--tier", "quick", "--no-evidence"], cwd=ROOT, env=env, capture_output=True, text=True, timeout=1500)
@@ -194,7 +203,7 @@ def run_one(m, jobs, seed):
                 rec["verdict"] = "reported"
                 rec["by"] = c
                 break
-        if rec["verdict"] != "reported":
+        if rec["verdict"] != "reported" and suite:
             if any(rc in (2, "timeout") for _, rc in rec["checks"]):
                 rec["verdict"] = "inconclusive"
             # is it a change the repository's own tests would have stopped?
@@ -243,6 +252,33 @@ def main():
                 fh.write(json.dumps(rec) + "\n")
                 fh.flush()
                 print(rec["id"], rec["verdict"], rec.get("by", ""), rec.get("suite", ""), rec["wall_s"], flush=True)
+    elif cmd == "extend":
+        # second pass: mutants that no mapped check reported and the repository suite accepts are run against all other checks
+        out = sys.argv[2]
+        resf = os.path.join(out, "results.jsonl")
+        recs = [json.loads(l) for l in open(resf)]
+        byid = {m["id"]: m for rel in sorted(CHECKS) for m in _with_ids(rel)}
+        todo = [r for r in recs if r["verdict"] != "reported" and r.get("suite") == "passes" and not r.get("extended")]
+        par, jobs = opt("--par", 2), opt("--jobs", 8)
+        allc = ["C%02d" % k for k in range(1, 21)]
+
+        def ext(r):
+            m = byid[r["id"]]
+            assert (m["line"], m["op"], m["before"]) == (r["line"], r["op"], r["before"]), r["id"]
+            rest = [c for c in allc if c not in [x[0] for x in r["checks"]]]
+            saved = CHECKS[m["file"]]
+            rec = run_one(m, jobs, opt("--check-seed", 1), checks=rest, suite=False)
+            r["checks"] += rec["checks"]
+            r["extended"] = True
+            if rec["verdict"] == "reported":
+                r["verdict"], r["by"] = "reported", rec["by"]
+            return r
+
+        with ThreadPoolExecutor(par) as ex:
+            for r in ex.map(ext, todo):
+                print(r["id"], r["verdict"], r.get("by", ""), flush=True)
+                with open(resf, "w") as fh:
+                    fh.writelines(json.dumps(x) + "\n" for x in recs)
     elif cmd == "table":
         recs = [json.loads(l) for l in open(os.path.join(sys.argv[2], "results.jsonl"))]
         def tab(key):
